@@ -731,6 +731,11 @@ def oracle_c19(tables, seed, tier, deep):
         lines = [l for l in lines if b"\n" not in l and len(l) < 20000]
         if lines:
             sops.append((gi, c, b"\n".join(lines) + b"\n"))
+    # the same files WITHOUT a final newline, ending in an entry of another component that holds addresses outside attr.remote, with
+    # --redactIPs: the last entry goes through the code behind the scan loop, and the tool's own output always ends in a newline
+    extra_last = b'{"t":{"$date":"2024-05-01T12:00:00.000+00:00"},"s":"I","c":"NETWORK","id":22943,"ctx":"listener","msg":"Connection accepted","attr":{"remote":"10.9.8.7:55555","client":"peer 10.1.2.3:4567","hostAndPort":"192.168.7.7:27017"}}'
+    for gi, c, data in list(sops):
+        sops.append((100 + gi, Cfg(n=True, b=True, i=True), data + extra_last))
     p1 = go_exec([("f%d" % gi, ["stream", c.s(), "-", hx(data)]) for gi, c, data in sops])
     second_in = {}
     for gi, c, data in sops:
